@@ -763,6 +763,15 @@ fn dispatch<C: CI>(op: Op, a: &[&[u8]]) -> R<Vec<Vec<u8>>> {
             let s = SecretKeyShare::<C>::try_from(arg(a, 1)?).map_err(e)?;
             Ok(vec![Vec::from(&ct.create_decryption_share(&s).map_err(e)?)])
         }
+        Op::ScShareTrait => {
+            // the other way the library offers to make a decryption share: the trait function itself
+            let ct = SignCryptCiphertext::<C>::try_from(arg(a, 0)?).map_err(e)?;
+            let s = SecretKeyShare::<C>::try_from(arg(a, 1)?).map_err(e)?;
+            let sh = <C as BlsSignCrypt>::create_decryption_share(&s.0, ct.u).map_err(e)?;
+            let mut out = vec![vsss_rs::Share::identifier(&sh)];
+            out.extend(vsss_rs::Share::value_vec(&sh));
+            Ok(vec![out])
+        }
         Op::DShareVerify => {
             let d = SignDecryptionShare::<C>::try_from(arg(a, 0)?).map_err(e)?;
             let p = PublicKeyShare::<C>::try_from(arg(a, 1)?).map_err(e)?;
